@@ -12,9 +12,9 @@ from concurrent.futures import ThreadPoolExecutor
 ROOT = os.path.dirname(os.path.dirname(os.path.abspath(__file__)))
 COQ = os.path.join(ROOT, "coq")
 OCAML = os.path.join(ROOT, "ocaml")
-HARNESS = os.path.join(ROOT, "harness")
+HARNESS = os.environ.get("MV_HARNESS", os.path.join(ROOT, "harness"))
 WORK = os.path.join(ROOT, "work")
-REPO = "/repo"
+REPO = os.environ.get("MV_REPO", "/repo")
 NPROC = 16
 PANIC = "9999"
 
@@ -27,13 +27,16 @@ ENGINES = {  # name -> number in Model/Engines.v
     "sink3": 31,
     "sink5": 32,
     "limiter": 35,
+    "iostate": 36,
+    "timerrt": 37,
+    "hs": 38,
     "dec5": 20,
     "enc5": 21,
     "sniff": 22,
 }
 
 ENV = dict(os.environ)
-ENV.update({"CARGO_NET_OFFLINE": "true", "RUSTFLAGS": "--cfg ntex_mqtt_verif"})
+ENV.update({"CARGO_NET_OFFLINE": "true", "RUSTFLAGS": "--cfg ntex_mqtt_verif", "CARGO_INCREMENTAL": "0"})
 
 TRUSTED_BASE = [
     "Coq 8.16.1 kernel (coqc), vm_compute; no native_compute",
@@ -83,11 +86,18 @@ def build_harness(release=False):
             subprocess.run(["cp", os.path.join(REPO, "Cargo.lock"), lock], check=True)
         cmd = ["cargo", "build", "--offline", "-q"] + (["--release"] if release else [])
         rc, out, err = sh(cmd, cwd=HARNESS, timeout=3000)
+        if rc != 0 and ("rust-lld" in err or "linking with" in err or "incremental" in err):
+            # stale/corrupt build artefacts of the harness crate itself (not a source problem): rebuild them
+            prof = os.path.join(os.environ.get("CARGO_TARGET_DIR", os.path.join(HARNESS, "target")),
+                                "release" if release else "debug")
+            sh("rm -rf %s/incremental %s/deps/mv_harness* %s/.fingerprint/mv-harness*" % (prof, prof, prof))
+            rc, out, err = sh(cmd, cwd=HARNESS, timeout=3000)
         return rc == 0, (out + err)[-4000:]
 
 
 def harness_bin(release=False):
-    return os.path.join(HARNESS, "target", "release" if release else "debug", "mv-harness")
+    tdir = os.environ.get("CARGO_TARGET_DIR", os.path.join(HARNESS, "target"))
+    return os.path.join(tdir, "release" if release else "debug", "mv-harness")
 
 
 def build_coq(targets, timeout=3000):
@@ -152,14 +162,43 @@ def strip_comments(src):
     return "".join(out)
 
 
-def grep_forbidden():
-    """forbidden vernacular anywhere in coq/ (Variable/Hypothesis are allowed inside a Section only)"""
+def dep_closure(pid):
+    """the .v files Props/<pid>.v depends on (transitively), from coq_makefile's .Makefile.d; None if unknown"""
+    dp = os.path.join(COQ, ".Makefile.d")
+    if not os.path.exists(dp):
+        return None
+    deps = {}
+    for line in open(dp):
+        if ".vo " in line.split(":")[0] + " " and ":" in line:
+            left, right = line.split(":", 1)
+            tgt = [t for t in left.split() if t.endswith(".vo")]
+            if not tgt:
+                continue
+            deps[tgt[0][:-1]] = [t[:-1] for t in right.split() if t.endswith(".vo")]
+    start = "Props/%s.v" % pid
+    if start not in deps:
+        return None
+    seen, todo = set(), [start]
+    while todo:
+        x = todo.pop()
+        if x in seen:
+            continue
+        seen.add(x)
+        todo += deps.get(x, [])
+    return seen
+
+
+def grep_forbidden(only=None):
+    """forbidden vernacular in coq/ (Variable/Hypothesis are allowed inside a Section only); `only` = set of
+    files (relative to coq/) to restrict to: the dependency closure of one property"""
     bad = []
     for d, _, fs in os.walk(COQ):
         for f in fs:
             if not f.endswith(".v"):
                 continue
             p = os.path.join(d, f)
+            if only is not None and os.path.relpath(p, COQ) not in only:
+                continue
             src = strip_comments(open(p).read())
             depth = 0
             for ln, line in enumerate(src.split("\n"), 1):
@@ -253,12 +292,14 @@ def print_assumptions(pid, names):
 def audit(pid):
     """returns (obligations, discharged, problems[])"""
     problems = []
-    bad = grep_forbidden()
-    problems += ["forbidden vernacular: " + b for b in bad]
     lp, st = statement_lock_check(pid)
     problems += lp
     names = sorted(st)
     ok, lg = build_coq(["Props/%s.vo" % pid])
+    # forbidden vernacular: in everything this property's theorems depend on (the whole development is
+    # grepped by tools/audit_all.py / setup)
+    bad = grep_forbidden(dep_closure(pid))
+    problems += ["forbidden vernacular: " + b for b in bad]
     if not ok:
         m = re.findall(r'File "([^"]+)", line (\d+)', lg)
         where = ("%s line %s" % m[-1]) if m else "?"
